@@ -171,96 +171,96 @@ package cbreaker
 
 //@ func parseExpression
 //@   props C18
-//@   modifies everything
+//@   modifies external
 //@   wiring Operators.AND=and Operators.OR=or Operators.EQ=eq Operators.NEQ=neq Operators.LT=lt Operators.LE=le Operators.GT=gt Operators.GE=ge
 //@   wiring ["LatencyAtQuantileMS"]=latencyAtQuantile ["NetworkErrorRatio"]=networkErrorRatio ["ResponseCodeRatio"]=responseCodeRatio
 
 //@ func and$1
 //@   props C18
 //@   holds CircuitBreaker.m
-//@   modifies everything
+//@   modifies external
 //@   ensures conjunction: result <==> (forall j int :: 0 <= j && j < len(fns) ==> hpval(fns[j], c))
 //@   loop 1 invariant -1 <= rangeindex && rangeindex < len(fns) && (forall j int :: 0 <= j && j <= rangeindex ==> hpval(fns[j], c))
 
 //@ func or$1
 //@   props C18
 //@   holds CircuitBreaker.m
-//@   modifies everything
+//@   modifies external
 //@   ensures disjunction: result <==> (exists j int :: 0 <= j && j < len(fns) && hpval(fns[j], c))
 //@   loop 1 invariant -1 <= rangeindex && rangeindex < len(fns) && (forall j int :: 0 <= j && j <= rangeindex ==> !hpval(fns[j], c))
 
 //@ func not$1
 //@   props C18
 //@   holds CircuitBreaker.m
-//@   modifies everything
+//@   modifies external
 //@   ensures negation: result <==> !hpval(p, c)
 
 //@ func le$1
 //@   props C18
 //@   holds CircuitBreaker.m
-//@   modifies everything
+//@   modifies external
 //@   ensures less_or_equal: result <==> (hpval(l, c) || hpval(e, c))
 
 //@ func ge$1
 //@   props C18
 //@   holds CircuitBreaker.m
-//@   modifies everything
+//@   modifies external
 //@   ensures greater_or_equal: result <==> (hpval(g, c) || hpval(e, c))
 
 //@ func intEQ$1
 //@   props C18
 //@   holds CircuitBreaker.m
-//@   modifies everything
+//@   modifies external
 //@   ensures compares: result <==> ival(m, c) == value
 //@ func intLT$1
 //@   props C18
 //@   holds CircuitBreaker.m
-//@   modifies everything
+//@   modifies external
 //@   ensures compares: result <==> ival(m, c) < value
 //@ func intGT$1
 //@   props C18
 //@   holds CircuitBreaker.m
-//@   modifies everything
+//@   modifies external
 //@   ensures compares: result <==> ival(m, c) > value
 //@ func float64EQ$1
 //@   props C18
 //@   holds CircuitBreaker.m
-//@   modifies everything
+//@   modifies external
 //@   ensures compares: result <==> fval(m, c) == value
 //@ func float64LT$1
 //@   props C18
 //@   holds CircuitBreaker.m
-//@   modifies everything
+//@   modifies external
 //@   ensures compares: result <==> fval(m, c) < value
 //@ func float64GT$1
 //@   props C18
 //@   holds CircuitBreaker.m
-//@   modifies everything
+//@   modifies external
 //@   ensures compares: result <==> fval(m, c) > value
 
 //@ func eq
 //@   props C18
-//@   modifies everything
+//@   modifies external
 //@   ensures dispatch: (istype(m, "toInt") ==> calls(intEQ) == 1) && (istype(m, "toFloat64") ==> calls(float64EQ) == 1) && (!istype(m, "toInt") && !istype(m, "toFloat64") ==> result1 != nil)
 //@ func lt
 //@   props C18
-//@   modifies everything
+//@   modifies external
 //@   ensures dispatch: (istype(m, "toInt") ==> calls(intLT) == 1) && (istype(m, "toFloat64") ==> calls(float64LT) == 1) && (!istype(m, "toInt") && !istype(m, "toFloat64") ==> result1 != nil)
 //@ func gt
 //@   props C18
-//@   modifies everything
+//@   modifies external
 //@   ensures dispatch: (istype(m, "toInt") ==> calls(intGT) == 1) && (istype(m, "toFloat64") ==> calls(float64GT) == 1) && (!istype(m, "toInt") && !istype(m, "toFloat64") ==> result1 != nil)
 //@ func neq
 //@   props C18
-//@   modifies everything
+//@   modifies external
 //@   ensures negated_equality: result1 == nil ==> calls(eq) == 1 && calls(not) == 1 && callarg(not, 0, 0) == callres(eq, 0, 0)
 //@ func le
 //@   props C18
-//@   modifies everything
+//@   modifies external
 //@   ensures built_from_lt_and_eq: result1 == nil ==> calls(lt) == 1 && calls(eq) == 1 && callarg(lt, 0, 0) == m && callarg(eq, 0, 0) == m && callarg(lt, 0, 1) == value && callarg(eq, 0, 1) == value
 //@ func ge
 //@   props C18
-//@   modifies everything
+//@   modifies external
 //@   ensures built_from_gt_and_eq: result1 == nil ==> calls(gt) == 1 && calls(eq) == 1 && callarg(gt, 0, 0) == m && callarg(eq, 0, 0) == m && callarg(gt, 0, 1) == value && callarg(eq, 0, 1) == value
 
 // ---- C09: String() is called by loggers; it reads guarded state ---------------------------------------
@@ -277,16 +277,16 @@ package cbreaker
 //@   props C09 C18
 //@   holds CircuitBreaker.m
 //@   requires c != nil && c.metrics != nil
-//@   modifies everything
+//@   modifies external
 //@ func networkErrorRatio$1
 //@   props C09 C18
 //@   holds CircuitBreaker.m
 //@   requires c != nil && c.metrics != nil
-//@   modifies everything
+//@   modifies external
 //@   ensures calls(NetworkErrorRatio) == 1 && result == callres(NetworkErrorRatio, 0, 0)
 //@ func responseCodeRatio$1
 //@   props C09 C18
 //@   holds CircuitBreaker.m
 //@   requires c != nil && c.metrics != nil
-//@   modifies everything
+//@   modifies external
 //@   ensures calls(ResponseCodeRatio) == 1 && result == callres(ResponseCodeRatio, 0, 0) && callarg(ResponseCodeRatio, 0, 1) == startA && callarg(ResponseCodeRatio, 0, 2) == endA && callarg(ResponseCodeRatio, 0, 3) == startB && callarg(ResponseCodeRatio, 0, 4) == endB
